@@ -424,7 +424,7 @@ Proof.
         unfold cursor_shape_hdr. rewrite Hrich.
         assert (Hcs : c_cursorshape c = true) by (apply andb_true_iff in Ss; destruct Ss as [Ss _]; apply andb_true_iff in Ss; tauto).
         destruct (c_richcursor c) eqn:Er;
-          (destruct (sn_cursor sn) as [gm|]; [destruct (cu_empty gm)|]); cbn [hdr_enc];
+          (destruct (sn_cursor sn) as [gm|]; [destruct ((cu_w gm =? 0) || (cu_h gm =? 0) || cu_empty gm)|]); cbn [hdr_enc];
           right; right; right; right; right; split; auto 10. }
     apply in_app_or in Hin; destruct Hin as [Hin|Hin].
     {
